@@ -20,7 +20,7 @@ All theorems hold for every well-formed AST: unbounded nesting depth, length, di
 LaTeX and `{ }` groups: `formula_to_latex` escapes the braces of the WHOLE text before splitting it; peeling, splitting and the
 leading integer commute with that escaping (Proofs/FormulaFormatLatex.lean), so the LaTeX theorems cover all brackets as well.
 -/
-import ChemModel.Proofs.FormulaFormatSpecies
+import ChemModel.Proofs.FormulaFormatCustom
 
 namespace ChemModel.C13
 open ChemModel.Formula ChemModel.FormulaFormat ChemModel.Gen
@@ -125,6 +125,16 @@ theorem charge_magnitude_then_sign (c : Charge) (h : c.val ≠ 0) :
       have h2 : ((-1 : Int) * ((digitsVal ds : Nat) : Int)).natAbs = digitsVal ds := by omega
       simp only [chargeTok, Charge.val, if_true, h1, h2]
 
+/-- **which charge texts `_get_charge` accepts** (the refusal half of the charge clause): exactly a sign followed by nothing (magnitude 1)
+    or by a sign-free text that `int()` accepts (ASCII digits, as modelled by C01's `pyInt` also with surrounding blanks / single underscores).
+    Hence a magnitude in front of the sign (`3+`), text on both sides (`1+2`), both signs (`+-`), a repeated sign (`++`) and a text
+    without sign are all refused (ValueError). -/
+theorem get_charge_ok_iff (t : Str) :
+    (∃ q, getCharge t = .ok q) ↔
+      ∃ sg rest, t = sg :: rest ∧ (sg = '+' ∨ sg = '-') ∧
+        (rest = [] ∨ ('+' ∉ rest ∧ '-' ∉ rest ∧ (pyInt rest).isSome = true)) :=
+  getCharge_ok_iff t
+
 /-! ### presentation only: what the three functions return on a written formula -/
 
 /-- **Unicode.** For every well-formed formula the real function returns exactly the presentation of the AST:
@@ -150,6 +160,56 @@ theorem presentation_only_latex (f : Formula) (h : f.WF) :
   unfold formulaToLatex
   rw [suffix_lists_guard.1]
   exact toLatex_render f h _ (sfxOK_default f (Formula.wfd f h))
+
+/-- **phase suffixes are kept verbatim — for ANY suffix tuple** (`suffixes=` of `formula_to_latex/_unicode/_html`, hence also the
+    `tuple(phases) + ("(aq)",)` of `Species.from_formula` with custom phases such as `(cr)`), stated directly on the text, no AST needed:
+    let the text be `s ++ t` with `t` one of the suffixes handed over, distinct suffixes not ending one another, no prefix key straddling
+    the boundary between `s` and `t`, and what is left of `s` after its prefixes not itself ending in one of the suffixes.  Then formatting
+    `s ++ t` is formatting `s` and appending `t` unchanged — the same text when `s` formats, the same exception when it does not
+    (so this is also the success characterisation: `s ++ t` is accepted iff `s` is). -/
+theorem suffix_kept_verbatim (F : Fmt) (sfx : List Str) (s t : Str)
+    (ht : t ∈ sfx)
+    (hinc : ∀ a ∈ sfx, ∀ b ∈ sfx, a ≠ b → ¬ a <:+ b)
+    (hpre : ∀ p ∈ F.prefixes.map Prod.fst, ∀ a ∈ tailsOf s, p <+: a ++ t → p <+: a)
+    (hends : ∀ u ∈ sfx, ¬ u <:+ (stripPrefixes (F.prefixes.map Prod.fst) s).2) :
+    formulaToFormat F sfx (s ++ t) = (formulaToFormat F sfx s).map (· ++ t) ∧
+    ((∃ r, formulaToFormat F sfx (s ++ t) = .ok r) ↔ (∃ r, formulaToFormat F sfx s = .ok r)) := by
+  have h := formulaToFormat_suffix F sfx s t ht hinc hpre hends
+  refine ⟨h, ?_⟩
+  rw [h]
+  cases formulaToFormat F sfx s with
+  | error e => simp [Except.map]
+  | ok r => simp [Except.map]
+
+/-- the same for `formula_to_latex` (whose brace escaping leaves a brace-free suffix alone) and the other two public functions -/
+theorem suffix_kept_verbatim_public (sfx : List Str) (s t : Str)
+    (ht : t ∈ sfx) (hinc : ∀ a ∈ sfx, ∀ b ∈ sfx, a ≠ b → ¬ a <:+ b) (htb : NoBrace t)
+    (hpre : ∀ p ∈ prefixesL, ∀ a ∈ tailsOf (escapeBraces s), p <+: a ++ t → p <+: a)
+    (hpre' : ∀ p ∈ prefixesL, ∀ a ∈ tailsOf s, p <+: a ++ t → p <+: a)
+    (hends : ∀ u ∈ sfx, ¬ u <:+ (stripPrefixes prefixesL (escapeBraces s)).2)
+    (hends' : ∀ u ∈ sfx, ¬ u <:+ (stripPrefixes prefixesL s).2) :
+    toLatex sfx (s ++ t) = (toLatex sfx s).map (· ++ t) ∧
+    toUnicode sfx (s ++ t) = (toUnicode sfx s).map (· ++ t) ∧
+    toHtml sfx (s ++ t) = (toHtml sfx s).map (· ++ t) := by
+  refine ⟨?_, ?_, ?_⟩
+  · unfold toLatex
+    rw [E_append, escapeBraces_noBrace htb]
+    exact formulaToFormat_suffix latexFmt sfx _ t ht hinc (by rw [latexFmtSpec.keys]; exact hpre) (by rw [latexFmtSpec.keys]; exact hends)
+  · exact formulaToFormat_suffix unicodeFmt sfx s t ht hinc (by rw [unicodeFmtSpec.keys]; exact hpre') (by rw [unicodeFmtSpec.keys]; exact hends')
+  · exact formulaToFormat_suffix htmlFmt sfx s t ht hinc (by rw [htmlFmtSpec.keys]; exact hpre') (by rw [htmlFmtSpec.keys]; exact hends')
+
+/-- **presentation of a formula written with ANY suffix, for ANY suffix tuple** (outside the vocabulary `(s) (l) (g) (aq)`: `(cr)`, custom
+    strings).  Let `f` be written with the suffix `w` (`f.suffix = some w`, `w` arbitrary text), `f` without that suffix well-formed, and let
+    the tuple fit (`SfxFits`: it contains `w`, distinct entries do not end one another, no entry ends the text before the suffix; entries free
+    of braces / backslash for LaTeX).  Then all three functions succeed and return exactly the presentation of the AST — `w` verbatim at the end. -/
+theorem presentation_only_custom_suffix (f : Formula) (w : Str) (hs : f.suffix = some w) (h0 : (noSuffix f).WF)
+    (sfx : List Str) (hok : SfxFits sfx f w) (hsp : ∀ s ∈ sfx, ∀ c ∈ s, spB c = true) :
+    toLatex sfx f.render = .ok (present latexPres f) ∧
+    toUnicode sfx f.render = .ok (present unicodePres f) ∧
+    toHtml sfx f.render = .ok (present htmlPres f) :=
+  ⟨toLatex_custom f w hs h0 sfx hok hsp,
+   formulaToFormat_custom unicodeFmtSpec f w hs h0 (fun q _ => termsBrAll_true q.terms) sfx hok,
+   formulaToFormat_custom htmlFmtSpec f w hs h0 (fun q _ => termsBrAll_true q.terms) sfx hok⟩
 
 /-! ### undoing the presentation -/
 
@@ -308,6 +368,22 @@ theorem species_explicit_idx_spec (f : Formula) (h : f.WF) (phases : Phases) (i 
   · exact List.mem_append.mpr (Or.inl h1)
   · exact List.mem_append.mpr (Or.inr (by rw [suffix_lists_guard.2.2.2, h1]; simp))
 
+/-- **species with custom phases** (`phases` — sequence or dict — over ANY strings, e.g. `("(cr)", "(am)")`; the written suffix `w` arbitrary):
+    if `phases ++ ("(aq)",)` fits the formula (`SfxFits`), then there is a dict `c` agreeing with the denotation of the formula (C01), and
+    `Species.from_formula` raises ValueError exactly when `w` selects no index and the default is None, else succeeds with the three
+    presentations (suffix verbatim), composition `c`, and `phase_idx` = the index `w` selects in `phases` (else the default). -/
+theorem species_custom_spec (f : Formula) (w : Str) (hs : f.suffix = some w) (h0 : (noSuffix f).WF)
+    (phases : Phases) (dflt : Option Int)
+    (hok : SfxFits (phases.keys ++ speciesExtraSuffixes) f w)
+    (hsp : ∀ s ∈ phases.keys ++ speciesExtraSuffixes, ∀ c ∈ s, spB c = true) :
+    ∃ c, formulaToCompositionL (noSuffix f).render = .ok c ∧ Agrees (noSuffix f) c ∧
+      speciesFromFormula phases dflt f.render =
+        (match (match selectIdx phases (some w) with | some i => some i | none => dflt) with
+         | none => .error "ValueError"
+         | some i => .ok ⟨f.render, present latexPres f, present unicodePres f, present htmlPres f, c, some i⟩) := by
+  obtain ⟨c, hc, ha⟩ := parse_render' (noSuffix f) h0
+  exact ⟨c, hc, ha, speciesFromFormula_custom f w hs h0 phases dflt hok hsp c hc⟩
+
 /-! ### printed reactions -/
 
 /-- the arrow of each printer (reaction / equilibrium) -/
@@ -385,6 +461,24 @@ example : ∃ S, Listed S f0 ∧ Known S f0 := by
 example : Known [] f0 := Or.inl rfl
 example : (match speciesFromFormulaIdx (.seq (suffixesL.take 3)) 7 f0.render with | .ok s => s.phaseIdx | .error _ => none) = some 7 := by
   decide +kernel
+/-- `suffix_kept_verbatim_public` on a suffix tuple OUTSIDE the default vocabulary: `alpha-Fe2O3` ++ `(cr)` with `suffixes=("(xyz)", "(cr)")` -/
+example : (toLatex ["(xyz)".toList, "(cr)".toList] ("alpha-Fe2O3".toList ++ "(cr)".toList)).toOption = some "\\alpha-Fe_{2}O_{3}(cr)".toList ∧
+    (toLatex ["(xyz)".toList, "(cr)".toList] "alpha-Fe2O3".toList).toOption = some "\\alpha-Fe_{2}O_{3}".toList := by decide +kernel
+example : toLatex ["(xyz)".toList, "(cr)".toList] ("alpha-Fe2O3".toList ++ "(cr)".toList)
+    = (toLatex ["(xyz)".toList, "(cr)".toList] "alpha-Fe2O3".toList).map (· ++ "(cr)".toList) :=
+  (suffix_kept_verbatim_public ["(xyz)".toList, "(cr)".toList] "alpha-Fe2O3".toList "(cr)".toList
+    (by decide) (by decide) (by unfold NoBrace; decide) (by decide +kernel) (by decide +kernel) (by decide +kernel) (by decide +kernel)).1
+example : (getCharge "-12".toList).toOption = some (-12) ∧ (getCharge "3+".toList).toOption = none ∧ (getCharge "1+2".toList).toOption = none ∧
+    (getCharge "+-".toList).toOption = none ∧ (getCharge "++".toList).toOption = none ∧ (getCharge "12".toList).toOption = none := by decide +kernel
+/-- a formula written with the non-vocabulary suffix `(cr)`, a tuple / phases that fit: hypotheses satisfiable, results computed -/
+private def fcr : Formula := { f0 with charge := none, suffix := some "(cr)".toList }
+example : (noSuffix fcr).WF ∧ SfxFits ["(am)".toList, "(cr)".toList] fcr "(cr)".toList ∧
+    SfxFits ((Phases.seq ["(am)".toList, "(cr)".toList]).keys ++ speciesExtraSuffixes) fcr "(cr)".toList := by
+  refine ⟨by decide, ⟨by decide, by decide, by decide +kernel⟩, ⟨by decide, by decide, by decide +kernel⟩⟩
+example : toUnicode ["(am)".toList, "(cr)".toList] fcr.render = .ok (present unicodePres fcr) :=
+  (presentation_only_custom_suffix fcr "(cr)".toList rfl (by decide) _ ⟨by decide, by decide, by decide +kernel⟩ (by decide)).2.1
+example : (match speciesFromFormula (.seq ["(am)".toList, "(cr)".toList]) none fcr.render with | .ok s => s.phaseIdx | .error _ => none) = some 2 ∧
+    (present unicodePres fcr) = "β-⋅Ca₂.₈₃₂(OH)₂·H₂O(cr)".toList := by decide +kernel
 example : coefStr (1 / 2) = "1/2".toList ∧ coefStr 12 = "12".toList ∧ coefStr (-3 / 4) = "-3/4".toList := by decide +kernel
 
 end ChemModel.C13
